@@ -504,7 +504,7 @@ def run(ck):
             ck.count('scenario')
             ck.count('appended-bytes', len(base.appended))
     else:
-        n_scn = 6
+        n_scn = 14
         nshards = min(14, max(1, (os.cpu_count() or 2) - 2))
         jobs = []
         for i in range(n_scn):
